@@ -254,6 +254,10 @@ def apply(st: St, op: list) -> None:
                 st.problems.append(('freeze_aliases_source', 'mutating the Matrix changed its frozen copy'))
             if st.FM.copy() is not st.FM:
                 st.problems.append(('frozen_copy_not_self', 'FrozenMatrix.copy() is documented to return self'))
+        elif k == 'M_setitem':
+            res.append(M.freeze())          # a frozen copy taken just before the cell is edited
+            M[op[1], op[2]] = op[3]
+            res.append(M.freeze())
         elif k == 'M_thaw':
             st.M = st.FM.thaw()
             before = mbits(st.FM)
@@ -421,7 +425,7 @@ class Model(bfs.Model):
         for how in ('copy', 'deepcopy', 'pickle', 'ctor', 'from_str', 'thaw_freeze'):
             ops.append(['V_copy', how, -1e-9])
         ops += [['A_freeze', -1e-14], ['A_thaw'], ['M_from_A'], ['M_imat_A'], ['M_imat_W'], ['M_transpose'], ['M_inverse'],
-                ['FM_mat'], ['M_freeze'], ['M_thaw']]
+                ['FM_mat'], ['M_freeze'], ['M_thaw'], ['M_setitem', 0, 1, 0.5], ['M_setitem', 2, 2, -1.0]]
         for kv in (-1e-9, 1e-9, -4e-7, 4e-7, 0.5, 1000000.5, -0.0, 5e-05, 1.234e-05, 6e-07, 1e16, 123456789012345678.0):
             ops.append(['V_new', kv, -kv, 0.0])
             ops.append(['V_setx', kv])
@@ -465,6 +469,42 @@ class Model(bfs.Model):
         for name, f in (('FA', st.FA), ('FV', st.FV)):
             if hash(f) != hash(f):
                 acc.fail('frozen_hash_unstable', case, f'history={history}\n hash({name}) not stable', op=lastop)
+        # (2b) freeze()/thaw()/copy() of the registers equal their source NOW (whatever was converted earlier), and mutable
+        # results derived from frozen objects are private to the caller
+        for name, obj, bitsfn in (('M', st.M, mbits), ('A', st.A, abits), ('V', st.V, vbits)):
+            fz = obj.freeze()
+            if bitsfn(fz) != bitsfn(obj) or bitsfn(fz.thaw()) != bitsfn(obj) or bitsfn(obj.copy()) != bitsfn(obj):
+                acc.fail('conversion_not_equal', case, f'history={history}\n {name}.freeze() / .freeze().thaw() / .copy() differs from {name} itself', op=lastop, reg=name)
+        for name, fobj, bitsfn in (('FM', st.FM, mbits), ('FA', st.FA, abits), ('FV', st.FV, vbits)):
+            before_f = bitsfn(fobj)
+            derived = [fobj.thaw()]
+            if name == 'FM':
+                derived += [fobj.to_angle(), fobj.forward(), fobj.left(), fobj.up(), fobj.transpose().thaw(), fobj.inverse().thaw()]
+            elif name == 'FV':
+                derived += [fobj.to_angle(), fobj.norm().thaw(), Vec(fobj)]
+            else:
+                derived += [Angle(fobj), Matrix.from_angle(fobj)]
+            first = [tuple(d) if not isinstance(d, Matrix) else mbits(d) for d in derived]
+            for d in derived:
+                if isinstance(d, Angle):
+                    d.yaw = (d.yaw + 33.0) % 360.0
+                    d *= 2.0
+                elif isinstance(d, Vec):
+                    d.x += 1.5
+                    d *= 2.0
+                elif isinstance(d, Matrix):
+                    d @= Matrix.from_yaw(33.0)
+            again = [fobj.thaw()]
+            if name == 'FM':
+                again += [fobj.to_angle(), fobj.forward(), fobj.left(), fobj.up(), fobj.transpose().thaw(), fobj.inverse().thaw()]
+            elif name == 'FV':
+                again += [fobj.to_angle(), fobj.norm().thaw(), Vec(fobj)]
+            else:
+                again += [Angle(fobj), Matrix.from_angle(fobj)]
+            second = [tuple(d) if not isinstance(d, Matrix) else mbits(d) for d in again]
+            if bitsfn(fobj) != before_f or first != second:
+                acc.fail('frozen_result_shared', case, f'history={history}\n mutating objects derived from {name} (thaw / to_angle / axes / ...) changed {name} or what it hands out next: '
+                         f'{first} -> {second}', op=lastop, reg=name)
         # (3) canonical text
         for name, obj, comps in (('A', st.A, abits), ('FA', st.FA, abits), ('V', st.V, vbits), ('FV', st.FV, vbits)):
             text = str(obj)
